@@ -592,11 +592,15 @@ func init() {
 				od.Floor("isSame_absent_comparisons", 9)
 				od.Floor("receiver_iterator_consumers", 1)
 				res.Merge(od)
+				ex := graphinv.RunExpose(c)
+				ex.Floor("ordered_iterator_constructions", 30)
+				res.Merge(ex)
 			}
 			for _, c := range []core.Config{{}, {Tags: "safe"}} {
 				g := graphinv.Run(c)
 				g.Floor("map_backed_graph_types", 8)
 				g.Floor("adjacency_effects", 80)
+				g.Floor("effects_paired_with_a_converse_site", 60)
 				g.Floor("mutating_methods", 20)
 				g.Floor("remove_node_methods", 8)
 				g.Floor("uid_set_updates", 4)
@@ -647,6 +651,9 @@ func init() {
 			fs.Floor("codec_method_pairs", 20)
 			fs.Floor("codec_fields", 35)
 			res.Merge(fs)
+			rv := decode.RunRevive(def, core.Pkgs("./graph/formats/...", "./graph/encoding/...", "./stat/card", "./mathext/prng"))
+			rv.Floor("fields_retired_with_nil", 1)
+			res.Merge(rv)
 			cl := decode.RunClone(def, "./graph/formats/rdf", "./stat/card", "./mat", "./mathext/prng")
 			cl.Floor("clone_methods", 2)
 			res.Merge(cl)
@@ -736,6 +743,8 @@ func dump(argv []string) {
 			pk = []string{"./..."}
 		}
 		res = config.Run(config.Matrix(tier), pk)
+	case "graphexpose":
+		res = graphinv.RunExpose(def)
 	case "graphorder":
 		res = graphinv.RunOrder(def)
 	case "factkind":
@@ -764,6 +773,8 @@ func dump(argv []string) {
 		res = flagx.RunLdCols(def, core.Pkgs(argv[1:]...))
 	case "callee":
 		res = worksize.RunCallee(def, core.Pkgs(argv[1:]...))
+	case "revive":
+		res = decode.RunRevive(def, core.Pkgs(argv[1:]...))
 	case "betascale":
 		res = flagx.RunBetaScale(def, core.Pkgs(argv[1:]...))
 	case "guardop":
